@@ -250,3 +250,51 @@ fn c05_validate_update_mandatory_and_ebgp() {
     core::mem::forget(msgs);
     kani::cover!(true, "harness end reachable");
 }
+
+// ------------------------------------------------------------------------------------------ C16: IpNet::contains
+
+/// C16 (dynamic-neighbour prefix containment): `IpNet::contains` agrees with the arithmetic definition
+/// (same family and equal leading `mask` bits) for every IPv4 prefix, mask 0..=32 and address.
+/// Complete over its inputs (32 + 6 + 32 bits; the only loop runs mask/8 <= 4 times).
+/// Preconditions made explicit: mask <= 32 and the prefix has no host bits set.
+#[kani::proof]
+#[kani::unwind(6)]
+fn c16_ipnet_contains_v4() {
+    let net: u32 = kani::any();
+    let mask: u8 = kani::any();
+    let addr: u32 = kani::any();
+    kani::assume(mask <= 32);
+    let shift = 32 - mask as u32;
+    let hostmask: u32 = if mask == 0 { u32::MAX } else { (1u64 << shift) as u32 - 1 };
+    kani::assume(net & hostmask == 0);
+    let n = IpNet::V4(Ipv4Net { addr: Ipv4Addr::from(net), mask });
+    let r = n.contains(&IpAddr::V4(Ipv4Addr::from(addr)));
+    let expect = mask == 0 || (addr >> shift) == (net >> shift);
+    assert!(r == expect, "C16.prefix_contains_iff_leading_bits_equal");
+    kani::cover!(r && mask > 0 && mask < 32, "contained");
+    kani::cover!(!r, "not contained");
+    // other family is never contained
+    let six: u128 = kani::any();
+    assert!(!n.contains(&IpAddr::V6(Ipv6Addr::from(six))), "C16.prefix_never_contains_other_family");
+    kani::cover!(true, "harness end reachable");
+}
+
+/// IPv6 counterpart (128 + 8 + 128 bits, loop <= 16 iterations): complete.
+#[kani::proof]
+#[kani::unwind(18)]
+fn c16_ipnet_contains_v6() {
+    let net: u128 = kani::any();
+    let mask: u8 = kani::any();
+    let addr: u128 = kani::any();
+    kani::assume(mask <= 128);
+    let shift = 128 - mask as u32;
+    let hostmask: u128 = if mask == 0 { u128::MAX } else if mask == 128 { 0 } else { (1u128 << shift) - 1 };
+    kani::assume(net & hostmask == 0);
+    let n = IpNet::V6(Ipv6Net { addr: Ipv6Addr::from(net), mask });
+    let r = n.contains(&IpAddr::V6(Ipv6Addr::from(addr)));
+    let expect = mask == 0 || (mask == 128 && addr == net) || (mask < 128 && (addr >> shift) == (net >> shift));
+    assert!(r == expect, "C16.prefix_contains_iff_leading_bits_equal");
+    kani::cover!(r && mask > 0 && mask < 128, "contained");
+    kani::cover!(!r, "not contained");
+    kani::cover!(true, "harness end reachable");
+}
